@@ -94,10 +94,15 @@ Definition check_case (fill : byte) (c : case) : N :=
       let P := mk_prims T fill in
       let pw := bexpand pw in
       let key := bexpand key in
-      if (cls =? 2)%nat then 10                               (* ReadWalletFile panicked *)
+      let model := match doc with Some d => read_wallet_tree P (jexpand d) pw | None => Err EJson end in
+      if (cls =? 2)%nat then
+        (* ReadWalletFile panicked: a violation -- unless the model panics too, which by
+           TotalProofs.read_panic_beyond_cap happens only on documents beyond the allocation cap of
+           scrypt.Key (128*N*r > 2^48), outside the property's quantifier ("cost parameters capped"); the
+           harness runs a few of them (family scrypt-alloc-cap) to tie [scrypt_alloc_ok] to the Go runtime *)
+        match model with Panic => 0 | _ => 10 end
       else if (cls =? 3)%nat then 11                          (* ReadWalletFile did not return *)
       else
-        let model := match doc with Some d => read_wallet_tree P (jexpand d) pw | None => Err EJson end in
         (* property oracles on the implementation, evaluated with the specification *)
         let oracle : N :=
           if (cls =? 0)%nat then
